@@ -3006,7 +3006,22 @@ def check_gate_tuple(ck, facts):
                                                                ("; not understood: " + "; ".join(unk_src)[:120]) if unk_src else "")))
             ms = mir.get(k, [])
             if len(ms) != 1:
-                unknown.append((fn.line, "%d clones into sub-mirror at<%d>() of the system mirror (expected one)" % (len(ms), k)))
+                # definite only if nothing out of sight could fill the sub-mirror: every callee in the push loop that receives (a part of) the system mirror mutably is a recognised clone
+                sysm = {rs.path(c_.get("obj")).steps[0] for lst_ in mir.values() for (c_, g1, g2, g3) in lst_}
+                known_ = {id(c_) for lst_ in mir.values() for (c_, g1, g2, g3) in lst_} | {id(pushes[0])}
+                hidden = [c_ for c_ in calls_of(fn) if id(c_) not in known_ and c_.get("callee") not in dfl.MOVE_FNS and any(x is L for x in dfl.enclosing_loops(fn, par, c_)) and (
+                    dfl.lambda_body_of(rs, c_) is not None or any(a_.get("k") == "Lambda" for a_ in c_.get("a", [])) or
+                    any(pt_ is not None and is_nonconst_ref(pt_) and rs.path(a_).steps[:1] and rs.path(a_).steps[0] in sysm for a_, pn_, pt_ in dfl.call_args_with_params(c_, fn)
+                        if a_ is not dfl.receiver(c_)) or
+                    (dfl.receiver(c_) is not None and not c_.get("cconst") and rs.path(dfl.receiver(c_)).steps[:1] and rs.path(dfl.receiver(c_)).steps[0] in sysm
+                     and callee_name(c_) not in ("at", "empty", "clone", "convert")))]
+                if len(ms) == 0 and mir and not hidden:
+                    problems.append((pushes[0].get("l"), "sub-mirror at<%d>() of the system mirror never receives a mirror of component gate %d (clones go to %s)" % (
+                        k, k, ", ".join("at<%d>() x%d" % (k2, len(l2)) for k2, l2 in sorted(mir.items())))))
+                elif len(ms) > 1 and len({m_[1] for m_ in ms}) > 1 and not hidden:
+                    problems.append((ms[1][0].get("l"), "sub-mirror at<%d>() is cloned %d times, from the mirrors of component gates %s" % (k, len(ms), sorted({str(m_[1]) for m_ in ms}))))
+                else:
+                    unknown.append((fn.line, "%d clones into sub-mirror at<%d>() of the system mirror (expected one)" % (len(ms), k)))
             else:
                 c, gk, gg, same_ix = ms[0]
                 if gk is None or gg is None:
